@@ -176,6 +176,27 @@ def seed_search(u, K, suffix, record):
     return False
 
 
+_KNOWN_FILE = None
+
+
+def listed_known(pid, kid):
+    """a finding declared next to a contract only counts when the committed known_findings.json lists it for this property
+    (entry 'known: property=<pid> <K-id> ...'; for per-scenario ids 'K12:<scenario>' the scenario must be named in the entry)"""
+    global _KNOWN_FILE
+    if _KNOWN_FILE is None:
+        import json as _json
+        try:
+            _KNOWN_FILE = [e for e in _json.load(open(os.path.join(VERIF, 'known_findings.json')))['entries'] if e.startswith('known:')]
+        except (OSError, ValueError, KeyError):
+            _KNOWN_FILE = []
+    base, _, scen = kid.partition(':')
+    for e in _KNOWN_FILE:
+        words = e.replace(',', ' ').split()
+        if 'property=%s' % pid in words and base in words and (not scen or scen in words):
+            return True
+    return False
+
+
 def load_prop(pid):
     sys.path.insert(0, VERIF)
     return importlib.import_module('props.%s' % pid)
@@ -255,6 +276,11 @@ def check_property(pid, tier, seed=0, replay_only=None):
             elif vc['status'] == 'sat':
                 handled = False
                 if vc.get('known'):
+                    vc = dict(vc)
+                    vc['known'] = [k for k in vc['known'] if listed_known(pid, k['id'])]
+                    if not vc['known']:
+                        vc.pop('outside_known', None)
+                if vc.get('known'):
                     for k in vc['known']:
                         known_lines[(k['id'], vc['oid'])] = 'KNOWN-FINDING: property=%s %s [%s] obligation=%s' % (pid, k['what'], k['id'], vc['oid'])
                     if vc.get('outside_known') == 'unsat':
@@ -327,7 +353,12 @@ def check_property(pid, tier, seed=0, replay_only=None):
         env = K.replay_env(vc['values']) if hasattr(K, 'replay_env') else None
         rp = real_replay(u, vc['values'], env)
         suffix = vc['oid'].split('/')[-1]
-        fname = vc['oid'].replace('/', '__').replace(':', '_').replace('[', '(').replace(']', ')') + '.json'
+        fname = vc['oid'].replace('/', '__').replace(':', '_').replace('[', '(').replace(']', ')')
+        fname = ''.join(ch if (ch.isascii() and (ch.isalnum() or ch in '._-()<>=,+ ')) else '_' for ch in fname)
+        if len(fname) > 180:
+            import hashlib
+            fname = fname[:140] + '~' + hashlib.sha1(vc['oid'].encode()).hexdigest()[:12] + '~' + fname[-24:]
+        fname += '.json'
         rpath = os.path.join(OUT, 'replays', pid, fname)
         record = {'property': pid, 'obligation': vc['oid'], 'unit': u.name, 'contract_module': u.kcls.__module__, 'contract_class': u.kcls.__name__,
                   'params': u.params, 'function': r['target'], 'function_src_sha256': r.get('src_sha256'), 'values': vc['values'],
